@@ -793,3 +793,37 @@ package frugal
 //@   ensures msg.Reply == "" ==> nsends() == 0
 //@   ensures msg.Reply != "" ==> nsends() == 1 && sendchan(0) == f.workC
 //@   modifies *
+
+// ---- pub/sub runtime (C07) ------------------------------------------------------------------------------------------
+
+// While subscribed, the subscription's quit channel exists and is not closed (so Unsubscribe can close it
+// exactly once and the workers of this subscription are not stopped by an earlier one).
+//@ guard lib.fNatsSubscriberTransport.openMu protects isSubscribed, sub, quitC
+//@   invariant self.isSubscribed ==> self.quitC != nil && !cclosed(self.quitC)
+
+//@ guard lib.fStompSubscriberTransport.openMu protects isSubscribed
+//@   invariant self.isSubscribed ==> self.stopC != nil && !cclosed(self.stopC)
+
+//@ func lib.FAsyncCallback
+//@   functype
+//@   modifies *
+
+//@ func lib.fNatsSubscriberTransport.Subscribe
+//@   modifies *
+//@   loop 0 invariant n == n0 && n.isSubscribed && n.quitC != nil && !cclosed(n.quitC)
+//@ func lib.fNatsSubscriberTransport.Unsubscribe
+//@   check-close
+//@   modifies *
+//@ func lib.fStompSubscriberTransport.Subscribe
+//@   modifies *
+//@ func lib.fStompSubscriberTransport.Unsubscribe
+//@   check-close
+//@   modifies *
+
+// Publisher and subscriber derive the NATS subject from the topic in the same way.
+//@ func lib.fNatsPublisherTransport.formattedSubject
+//@   ensures result == "frugal." + subject
+//@ func lib.fNatsSubscriberTransport.formattedSubject
+//@   ensures result == "frugal." + subject
+//@ func lib.fStompPublisherTransport.formatStompPublishTopic
+//@   ensures result == "/topic/" + m.topicPrefix + "frugal." + topic
